@@ -1,35 +1,1798 @@
 package main
 
+// Counterexample replay.
+//
+// A failed obligation is only a failed proof. To turn it into a demonstrated violation the engine
+//   1. asks the solver for a candidate input of the function (the failing query itself, and the same query with
+//      every quantified assertion dropped — a relaxation that is decidable and always yields a model),
+//   2. runs the REAL function on that input: an in-package Go test injected with `go test -overlay`, nothing is
+//      written to the repository,
+//   3. evaluates the contract on the observed run with the solver: the precondition must be PROVED to hold for the
+//      concrete input, and the postcondition must be PROVED impossible for the concrete input/output pair
+//      (so uninterpreted or assumed symbols can never produce a "reproduced" verdict), or the real code panicked
+//      although the contract promises no panic.
+// Only then does the VIOLATION line lose its "no-failing-input-found" suffix. Everything else stays a failed
+// obligation reported as before. Functions outside the replayable class (see shapeOf) are never replayed.
+
 import (
+	"encoding/json"
 	"fmt"
+	"go/types"
+	"math/big"
+	"os"
+	"os/exec"
+	"path/filepath"
+	"regexp"
+	"sort"
+	"strconv"
+	"strings"
+	"sync"
+	"time"
+
+	"golang.org/x/tools/go/ssa"
 )
+
+var replayMu sync.Mutex
+
+// ---------------------------------------------------------------- shapes and concrete values
+
+type rshape struct {
+	kind   string // int bool string bytes array struct ptr error
+	ty     types.Type
+	n      int
+	fields []rfield
+	elem   *rshape
+}
+
+type rfield struct {
+	idx  int
+	name string
+	sh   *rshape
+}
+
+type cval struct {
+	N   string  `json:"n,omitempty"` // decimal integer
+	B   bool    `json:"b,omitempty"`
+	S   []int   `json:"s,omitempty"` // bytes of a string / []byte / elements of an integer array
+	Len int     `json:"len,omitempty"`
+	Nil bool    `json:"nil,omitempty"`
+	F   []*cval `json:"f,omitempty"`
+	Set bool    `json:"set,omitempty"` // value known (false: unobserved / default)
+}
+
+const maxReplayLen = 48
+
+func nameable(t types.Type, pkg *types.Package) bool {
+	n, ok := t.(*types.Named)
+	if !ok {
+		_, basic := t.(*types.Basic)
+		return basic
+	}
+	if n.TypeArgs() != nil && n.TypeArgs().Len() > 0 {
+		return false
+	}
+	o := n.Obj()
+	if o.Pkg() == nil {
+		return true
+	}
+	if o.Parent() != o.Pkg().Scope() {
+		return false // local type
+	}
+	return o.Pkg() == pkg || o.Exported()
+}
+
+func shapeOf(t types.Type, pkg *types.Package, depth int, result bool) *rshape {
+	if depth > 3 {
+		return nil
+	}
+	if types.Identical(t, types.Universe.Lookup("error").Type()) {
+		if result {
+			return &rshape{kind: "error", ty: t}
+		}
+		return nil
+	}
+	switch u := t.Underlying().(type) {
+	case *types.Basic:
+		if !nameable(t, pkg) {
+			return nil
+		}
+		if u.Kind() == types.Bool {
+			return &rshape{kind: "bool", ty: t}
+		}
+		if u.Kind() == types.String {
+			return &rshape{kind: "string", ty: t}
+		}
+		if _, ok := intInfoOf(t); ok && u.Info()&types.IsUntyped == 0 {
+			return &rshape{kind: "int", ty: t}
+		}
+	case *types.Slice:
+		if b, ok := u.Elem().(*types.Basic); ok && b.Kind() == types.Uint8 {
+			if _, named := t.(*types.Named); named && !nameable(t, pkg) {
+				return nil
+			}
+			return &rshape{kind: "bytes", ty: t}
+		}
+	case *types.Array:
+		if _, ok := intInfoOf(u.Elem()); ok && u.Len() <= 32 && nameable(u.Elem(), pkg) {
+			if _, named := t.(*types.Named); named && !nameable(t, pkg) {
+				return nil
+			}
+			return &rshape{kind: "array", ty: t, n: int(u.Len()), elem: &rshape{kind: "int", ty: u.Elem()}}
+		}
+	case *types.Struct:
+		if _, named := t.(*types.Named); !named || !nameable(t, pkg) {
+			return nil
+		}
+		sh := &rshape{kind: "struct", ty: t}
+		for i := 0; i < u.NumFields(); i++ {
+			f := u.Field(i)
+			if f.Name() == "_" || !(f.Exported() || f.Pkg() == pkg) {
+				continue
+			}
+			fs := shapeOf(f.Type(), pkg, depth+1, result)
+			if fs == nil || fs.kind == "ptr" || fs.kind == "error" {
+				continue // left at its zero value / unobserved
+			}
+			sh.fields = append(sh.fields, rfield{idx: i, name: f.Name(), sh: fs})
+		}
+		return sh
+	case *types.Pointer:
+		if depth > 0 {
+			return nil
+		}
+		if _, ok := u.Elem().Underlying().(*types.Struct); !ok {
+			return nil
+		}
+		es := shapeOf(u.Elem(), pkg, depth+1, result)
+		if es == nil {
+			return nil
+		}
+		return &rshape{kind: "ptr", ty: t, elem: es}
+	}
+	return nil
+}
+
+// ---------------------------------------------------------------- plan
+
+type replayPlan struct {
+	g       *Gen
+	fn      *ssa.Function
+	fc      *FuncContract
+	params  []*rshape
+	results []*rshape // nil entries: unobserved
+	pkg     *types.Package
+	dir     string
+	pure    bool
+}
+
+func (g *Gen) planReplay(fnName string) (*replayPlan, string) {
+	fn := g.funcs[fnName]
+	if fn == nil {
+		return nil, "no such function"
+	}
+	fc := g.contractFor(fn.String(), fn)
+	if fc == nil {
+		return nil, "no contract"
+	}
+	if fn.Parent() != nil {
+		return nil, "closure"
+	}
+	if fn.Pkg == nil || fn.TypeParams().Len() > 0 || len(fn.TypeArgs()) > 0 || fn.Signature.Variadic() {
+		return nil, "generic, variadic or synthetic function"
+	}
+	if fc.Abstract {
+		return nil, "abstracting tier (effects on shared state, not a function of its inputs)"
+	}
+	p := &replayPlan{g: g, fn: fn, fc: fc, pkg: fn.Pkg.Pkg}
+	// pure: the call cannot change caller-visible state (syntactic), so one heap describes both states
+	p.pure = g.isPure(fn)
+	for _, prm := range fn.Params {
+		sh := shapeOf(prm.Type(), p.pkg, 0, false)
+		if sh == nil {
+			return nil, fmt.Sprintf("parameter %s of type %s cannot be constructed from a model", prm.Name(), prm.Type())
+		}
+		p.params = append(p.params, sh)
+	}
+	rs := fn.Signature.Results()
+	for i := 0; i < rs.Len(); i++ {
+		p.results = append(p.results, shapeOf(rs.At(i).Type(), p.pkg, 0, true))
+	}
+	pos := fn.Prog.Fset.Position(fn.Pos())
+	if !pos.IsValid() {
+		return nil, "no source position"
+	}
+	p.dir = filepath.Dir(pos.Filename)
+	return p, ""
+}
+
+// ---------------------------------------------------------------- SMT terms of a shape
+
+type leaf struct {
+	term string
+	dst  func(v string)
+}
+
+func declared(script, name string) bool {
+	return strings.Contains(script, "(declare-const "+name+" ") || strings.Contains(script, "(declare-fun "+name+" ") || strings.Contains(script, "(define-fun "+name+" ")
+}
+
+// collect lists the model terms still needed to complete cv. script == "" means "everything is declared".
+func (c *FnCtx) collect(sh *rshape, term string, cv *cval, script string, out *[]leaf) {
+	I := func(i int) string { return c.mode.idxLit(int64(i)) }
+	switch sh.kind {
+	case "int":
+		if !cv.Set {
+			ii, _ := intInfoOf(sh.ty)
+			*out = append(*out, leaf{term, func(v string) { cv.N = decodeInt(v, ii).String(); cv.Set = true }})
+		}
+	case "bool":
+		if !cv.Set {
+			*out = append(*out, leaf{term, func(v string) { cv.B = strings.TrimSpace(v) == "true"; cv.Set = true }})
+		}
+	case "string", "bytes":
+		if !cv.Set {
+			*out = append(*out, leaf{"(s_len " + term + ")", func(v string) {
+				n := decodeInt(v, intInfo{64, true})
+				if n.Sign() < 0 || n.Cmp(big.NewInt(maxReplayLen)) > 0 {
+					cv.Len = -1
+				} else {
+					cv.Len = int(n.Int64())
+				}
+				cv.Set = true
+			}})
+			if sh.kind == "bytes" {
+				*out = append(*out, leaf{"(s_reg " + term + ")", func(v string) { cv.Nil = decodeInt(v, intInfo{64, true}).Sign() == 0 }})
+			}
+			return
+		}
+		if cv.Len > 0 && len(cv.S) == 0 {
+			cv.S = make([]int, cv.Len)
+			for i := 0; i < cv.Len; i++ {
+				i := i
+				var t string
+				if sh.kind == "string" {
+					if script != "" && !declared(script, "sbyte") {
+						continue
+					}
+					t = "(sbyte " + term + " " + I(i) + ")"
+				} else {
+					h := sym("Elems uint8")
+					if script != "" && !declared(script, h) {
+						continue
+					}
+					t = "(select (select " + h + " (s_reg " + term + ")) " + c.spos(term, I(i)) + ")"
+				}
+				*out = append(*out, leaf{t, func(v string) {
+					cv.S[i] = int(new(big.Int).And(decodeInt(v, intInfo{8, false}), big.NewInt(255)).Int64())
+				}})
+			}
+		}
+	case "array":
+		if !cv.Set {
+			cv.S = make([]int, sh.n)
+			cv.Set = true
+			ii, _ := intInfoOf(sh.elem.ty)
+			if cv.F == nil {
+				cv.F = make([]*cval, sh.n)
+			}
+			for i := 0; i < sh.n; i++ {
+				i := i
+				cv.F[i] = &cval{}
+				*out = append(*out, leaf{"(select " + term + " " + I(i) + ")", func(v string) { cv.F[i].N = decodeInt(v, ii).String(); cv.F[i].Set = true }})
+			}
+		}
+	case "struct":
+		if cv.F == nil {
+			cv.F = make([]*cval, len(sh.fields))
+			for i := range cv.F {
+				cv.F[i] = &cval{}
+			}
+		}
+		cv.Set = true
+		for i, f := range sh.fields {
+			c.collect(f.sh, "("+c.fieldAcc(sh.ty, f.idx)+" "+term+")", cv.F[i], script, out)
+		}
+	case "ptr":
+		if !cv.Set {
+			*out = append(*out, leaf{term, func(v string) { cv.Nil = decodeInt(v, intInfo{64, true}).Sign() == 0; cv.Set = true }})
+			return
+		}
+		if cv.Nil {
+			return
+		}
+		es := sh.elem
+		if cv.F == nil {
+			cv.F = make([]*cval, len(es.fields))
+			for i := range cv.F {
+				cv.F[i] = &cval{}
+			}
+		}
+		for i, f := range es.fields {
+			h := sym("H " + typeName(es.ty) + "." + f.name)
+			if script != "" && !declared(script, h) {
+				continue
+			}
+			if script == "" {
+				h = c.fieldHeap(es.ty, f.idx)
+			}
+			c.collect(f.sh, "(select "+h+" "+term+")", cv.F[i], script, out)
+		}
+	}
+}
+
+// facts equates term with the concrete value.
+func (c *FnCtx) facts(sh *rshape, term string, cv *cval) []string { return c.factsH(sh, term, cv, nil) }
+
+// factsH: as facts, reading heap arrays through the given view (nil: the entry heap).
+func (c *FnCtx) factsH(sh *rshape, term string, cv *cval, hv Heap) []string {
+	if cv == nil {
+		return nil
+	}
+	H := func(name string) string {
+		if t, ok := hv[name]; ok {
+			return t
+		}
+		return name
+	}
+	I := func(i int) string { return c.mode.idxLit(int64(i)) }
+	var fs []string
+	switch sh.kind {
+	case "int":
+		if cv.Set {
+			ii, _ := intInfoOf(sh.ty)
+			n, _ := new(big.Int).SetString(cv.N, 10)
+			fs = append(fs, eq(term, c.mode.lit(n, ii)))
+		}
+	case "bool":
+		if cv.Set {
+			if cv.B {
+				fs = append(fs, term)
+			} else {
+				fs = append(fs, "(not "+term+")")
+			}
+		}
+	case "string", "bytes":
+		if !cv.Set {
+			return nil
+		}
+		fs = append(fs, eq("(s_len "+term+")", I(cv.Len)))
+		if sh.kind == "bytes" {
+			if cv.Nil {
+				fs = append(fs, eq("(s_reg "+term+")", "0"))
+			} else {
+				fs = append(fs, "(not "+eq("(s_reg "+term+")", "0")+")")
+			}
+		} else {
+			c.declStrings()
+		}
+		for i := 0; i < cv.Len && i < len(cv.S); i++ {
+			lit := c.mode.lit(big.NewInt(int64(cv.S[i])), intInfo{8, false})
+			if sh.kind == "string" {
+				fs = append(fs, eq("(sbyte "+term+" "+I(i)+")", lit))
+			} else {
+				h := H(c.elemsHeap(types.Typ[types.Uint8]))
+				fs = append(fs, eq("(select (select "+h+" (s_reg "+term+")) "+c.spos(term, I(i))+")", lit))
+			}
+		}
+	case "array":
+		if !cv.Set {
+			return nil
+		}
+		for i := 0; i < sh.n && i < len(cv.F); i++ {
+			fs = append(fs, c.factsH(sh.elem, "(select "+term+" "+I(i)+")", cv.F[i], hv)...)
+		}
+	case "struct":
+		c.sortOf(sh.ty)
+		for i, f := range sh.fields {
+			if i < len(cv.F) {
+				fs = append(fs, c.factsH(f.sh, "("+c.fieldAcc(sh.ty, f.idx)+" "+term+")", cv.F[i], hv)...)
+			}
+		}
+	case "ptr":
+		if !cv.Set {
+			return nil
+		}
+		if cv.Nil {
+			return []string{eq(term, "0")}
+		}
+		fs = append(fs, "(not "+eq(term, "0")+")")
+		for i, f := range sh.elem.fields {
+			if i < len(cv.F) {
+				fs = append(fs, c.factsH(f.sh, "(select "+H(c.fieldHeap(sh.elem.ty, f.idx))+" "+term+")", cv.F[i], hv)...)
+			}
+		}
+	case "error":
+		if !cv.Set {
+			return nil
+		}
+		if cv.Nil {
+			return []string{eq(term, "0")}
+		}
+		return []string{"(not " + eq(term, "0") + ")"}
+	}
+	return fs
+}
+
+func decodeInt(v string, ii intInfo) *big.Int {
+	v = strings.TrimSpace(v)
+	n := new(big.Int)
+	switch {
+	case strings.HasPrefix(v, "#x"):
+		n.SetString(v[2:], 16)
+		bits := 4 * (len(v) - 2)
+		if ii.signed && bits == ii.bits && n.Bit(bits-1) == 1 {
+			n.Sub(n, new(big.Int).Lsh(big.NewInt(1), uint(bits)))
+		}
+	case strings.HasPrefix(v, "#b"):
+		n.SetString(v[2:], 2)
+		bits := len(v) - 2
+		if ii.signed && bits == ii.bits && n.Bit(bits-1) == 1 {
+			n.Sub(n, new(big.Int).Lsh(big.NewInt(1), uint(bits)))
+		}
+	case strings.HasPrefix(v, "(_ bv"):
+		f := strings.Fields(strings.Trim(v, "()"))
+		if len(f) >= 3 {
+			n.SetString(strings.TrimPrefix(f[1], "bv"), 10)
+			bits, _ := strconv.Atoi(f[2])
+			if ii.signed && bits == ii.bits && n.Bit(bits-1) == 1 {
+				n.Sub(n, new(big.Int).Lsh(big.NewInt(1), uint(bits)))
+			}
+		}
+	case strings.HasPrefix(v, "(-"):
+		n.SetString(strings.TrimSpace(strings.Trim(v[2:], "() ")), 10)
+		n.Neg(n)
+	default:
+		n.SetString(v, 10)
+	}
+	return n
+}
+
+// ---------------------------------------------------------------- s-expressions
+
+// topForms splits a script into its top-level parenthesised forms.
+func topForms(s string) []string {
+	var out []string
+	depth, start := 0, -1
+	inBar, inStr := false, false
+	for i := 0; i < len(s); i++ {
+		ch := s[i]
+		if inBar {
+			if ch == '|' {
+				inBar = false
+			}
+			continue
+		}
+		if inStr {
+			if ch == '"' {
+				inStr = false
+			}
+			continue
+		}
+		switch ch {
+		case '|':
+			inBar = true
+		case '"':
+			inStr = true
+		case ';':
+			for i < len(s) && s[i] != '\n' {
+				i++
+			}
+		case '(':
+			if depth == 0 {
+				start = i
+			}
+			depth++
+		case ')':
+			depth--
+			if depth == 0 && start >= 0 {
+				out = append(out, s[start:i+1])
+				start = -1
+			}
+		}
+	}
+	return out
+}
+
+// pairValues parses the answer of (get-value (t1 t2 ...)): the value of each pair, in order.
+func pairValues(out string) []string {
+	forms := topForms(out)
+	if len(forms) == 0 {
+		return nil
+	}
+	inner := forms[0]
+	inner = inner[1 : len(inner)-1]
+	var vals []string
+	for _, p := range topForms(inner) {
+		// p = (term value): value is the last element
+		body := strings.TrimSpace(p[1 : len(p)-1])
+		el := splitElems(body)
+		if len(el) < 2 {
+			vals = append(vals, "")
+			continue
+		}
+		vals = append(vals, el[len(el)-1])
+	}
+	return vals
+}
+
+func splitElems(s string) []string {
+	var out []string
+	i := 0
+	for i < len(s) {
+		for i < len(s) && (s[i] == ' ' || s[i] == '\n' || s[i] == '\t') {
+			i++
+		}
+		if i >= len(s) {
+			break
+		}
+		st := i
+		switch s[i] {
+		case '(':
+			d := 0
+			inBar := false
+			for ; i < len(s); i++ {
+				if inBar {
+					if s[i] == '|' {
+						inBar = false
+					}
+					continue
+				}
+				if s[i] == '|' {
+					inBar = true
+				} else if s[i] == '(' {
+					d++
+				} else if s[i] == ')' {
+					d--
+					if d == 0 {
+						i++
+						break
+					}
+				}
+			}
+		case '|':
+			i++
+			for i < len(s) && s[i] != '|' {
+				i++
+			}
+			i++
+		default:
+			for i < len(s) && s[i] != ' ' && s[i] != '\n' && s[i] != '\t' && s[i] != '(' && s[i] != ')' {
+				i++
+			}
+		}
+		out = append(out, s[st:i])
+	}
+	return out
+}
+
+var quantRe = regexp.MustCompile(`\((forall|exists) `)
+var bitUFRe = regexp.MustCompile(`^\(declare-fun \|?bit_(and|or|xor|andnot|<<|>>)_([us])(\d+)\|? `)
+
+// relax drops every assertion that contains a quantifier: fewer constraints, so every model of the original query
+// is still a model, and the remainder is (mostly) decidable.
+func relax(script string) string {
+	var sb strings.Builder
+	for _, f := range topForms(script) {
+		if strings.HasPrefix(f, "(check-sat") || strings.HasPrefix(f, "(get-") {
+			continue
+		}
+		if strings.HasPrefix(f, "(assert") && quantRe.MatchString(f) {
+			continue
+		}
+		sb.WriteString(f + "\n")
+	}
+	return sb.String()
+}
+
+func stripCheck(script string) string {
+	var sb strings.Builder
+	for _, f := range topForms(script) {
+		if strings.HasPrefix(f, "(check-sat") || strings.HasPrefix(f, "(get-") {
+			continue
+		}
+		sb.WriteString(f + "\n")
+	}
+	return sb.String()
+}
+
+// ---------------------------------------------------------------- candidates
+
+// entryCtx declares the parameters as verifyFunc does (same symbol names), without assuming the precondition.
+func (p *replayPlan) entryCtx() (*FnCtx, []Val) {
+	c := p.g.newCtx(p.fn, p.fc, modeOf(p.fc))
+	c.evalMode = true
+	c.discover = false
+	if len(p.fn.Blocks) > 0 {
+		c.curBlock = p.fn.Blocks[0]
+	}
+	var vals []Val
+	for _, prm := range p.fn.Params {
+		n := sym("p_" + prm.Name())
+		c.decl("(declare-const " + n + " " + c.sortOf(prm.Type()) + ")")
+		v := Val{T: n, Ty: prm.Type()}
+		c.setVal(prm, v)
+		c.define(c.typeFact(n, prm.Type()))
+		vals = append(vals, v)
+	}
+	return c, vals
+}
+
+func solveValues(base string, terms []string, file string, timeoutS int) ([]string, string) {
+	script := base + "(check-sat)\n(get-value (" + strings.Join(terms, " ") + "))\n"
+	os.WriteFile(file, []byte(script), 0o644)
+	defer os.Remove(file)
+	r := runSolver(solvers[0], file, timeoutS)
+	if os.Getenv("GOVC_REPLAY_DEBUG") != "" {
+		o := r.out
+		if len(o) > 600 {
+			o = o[:600]
+		}
+		fmt.Fprintf(os.Stderr, "replay-debug solveValues %d terms: %s\n", len(terms), strings.ReplaceAll(o, "\n", " | "))
+	}
+	if r.status != "sat" && r.status != "unknown" {
+		return nil, r.status
+	}
+	i := strings.Index(r.out, "\n")
+	if i < 0 {
+		return nil, r.status
+	}
+	rest := strings.TrimSpace(r.out[i+1:])
+	if !strings.HasPrefix(rest, "((") {
+		return nil, r.status
+	}
+	vals := pairValues(rest)
+	if len(vals) != len(terms) {
+		return nil, r.status
+	}
+	return vals, r.status
+}
+
+// candidate extracts one input from the (possibly relaxed) failing query. block lists assertions excluding
+// earlier candidates.
+func (p *replayPlan) candidate(base string, block []string, work, tag string) ([]*cval, string) {
+	// short strings and slices first: the real run and the concrete evaluation both want small inputs
+	hasLen := false
+	for _, sh := range p.params {
+		if sh.kind == "string" || sh.kind == "bytes" {
+			hasLen = true
+		}
+	}
+	if !hasLen {
+		b := base
+		if strings.HasPrefix(base, concretiseMark) {
+			b = concretise(strings.TrimPrefix(base, concretiseMark), 3)
+		}
+		return p.candidateB(b, block, work, tag, -1)
+	}
+	for _, k := range []int{3, 8, 24, maxReplayLen} {
+		b := base
+		if strings.HasPrefix(base, concretiseMark) {
+			b = concretise(strings.TrimPrefix(base, concretiseMark), k)
+		}
+		if cvs, blk := p.candidateB(b, block, work, tag, k); cvs != nil {
+			return cvs, blk
+		}
+	}
+	return nil, ""
+}
+
+const concretiseMark = "; concretise\n"
+
+func (p *replayPlan) candidateB(base string, block []string, work, tag string, lenBound int) ([]*cval, string) {
+	c, vals := p.entryCtx()
+	cvs := make([]*cval, len(p.params))
+	for i := range cvs {
+		cvs[i] = &cval{}
+	}
+	script := base + strings.Join(block, "\n") + "\n"
+	if lenBound >= 0 {
+		for i, sh := range p.params {
+			if sh.kind == "string" || sh.kind == "bytes" {
+				script += "(assert " + c.idxLe("(s_len "+vals[i].T+")", c.mode.idxLit(int64(lenBound))) + ")\n"
+			}
+		}
+	}
+	var blockEq []string
+	for round := 0; round < 4; round++ {
+		var ls []leaf
+		for i, sh := range p.params {
+			c.collect(sh, vals[i].T, cvs[i], base, &ls)
+		}
+		if len(ls) == 0 {
+			break
+		}
+		var terms []string
+		for _, l := range ls {
+			terms = append(terms, l.term)
+		}
+		got, _ := solveValues(script, terms, filepath.Join(work, "cand-"+tag+".smt2"), 10)
+		if got == nil {
+			return nil, ""
+		}
+		for i, l := range ls {
+			l.dst(got[i])
+			// keep later rounds (and the caller's blocking clause) consistent with what was read
+			script += "(assert (= " + l.term + " " + got[i] + "))\n"
+			if round == 0 {
+				blockEq = append(blockEq, "(= "+l.term+" "+got[i]+")")
+			}
+		}
+	}
+	for i, sh := range p.params {
+		if !complete(sh, cvs[i]) {
+			return nil, ""
+		}
+	}
+	blk := ""
+	if len(blockEq) > 0 {
+		blk = "(assert (not (and " + strings.Join(blockEq, " ") + ")))"
+	}
+	return cvs, blk
+}
+
+func complete(sh *rshape, cv *cval) bool {
+	switch sh.kind {
+	case "string", "bytes":
+		return cv.Set && cv.Len >= 0
+	case "int", "bool":
+		return cv.Set
+	case "ptr":
+		return cv.Set
+	}
+	return true
+}
+
+// ---------------------------------------------------------------- running the real code
+
+type goWriter struct {
+	pkg     *types.Package
+	imports map[string]string // path -> name
+}
+
+func (w *goWriter) typeStr(t types.Type) string {
+	return types.TypeString(t, func(p *types.Package) string {
+		if p == w.pkg {
+			return ""
+		}
+		w.imports[p.Path()] = p.Name()
+		return p.Name()
+	})
+}
+
+func bytesLit(bs []int, n int) string {
+	var sb strings.Builder
+	sb.WriteByte('"')
+	for i := 0; i < n; i++ {
+		b := 0
+		if i < len(bs) {
+			b = bs[i]
+		}
+		fmt.Fprintf(&sb, "\\x%02x", b&255)
+	}
+	sb.WriteByte('"')
+	return sb.String()
+}
+
+func (w *goWriter) lit(sh *rshape, cv *cval) string {
+	switch sh.kind {
+	case "int":
+		n := "0"
+		if cv != nil && cv.Set {
+			n = cv.N
+		}
+		return w.typeStr(sh.ty) + "(" + n + ")"
+	case "bool":
+		return w.typeStr(sh.ty) + "(" + strconv.FormatBool(cv != nil && cv.B) + ")"
+	case "string":
+		if cv == nil || !cv.Set {
+			return w.typeStr(sh.ty) + `("")`
+		}
+		return w.typeStr(sh.ty) + "(" + bytesLit(cv.S, cv.Len) + ")"
+	case "bytes":
+		if cv == nil || !cv.Set || (cv.Nil && cv.Len == 0) {
+			return w.typeStr(sh.ty) + "(nil)"
+		}
+		return w.typeStr(sh.ty) + "(" + bytesLit(cv.S, cv.Len) + ")"
+	case "array":
+		var es []string
+		for i := 0; i < sh.n; i++ {
+			var e *cval
+			if cv != nil && i < len(cv.F) {
+				e = cv.F[i]
+			}
+			es = append(es, w.lit(sh.elem, e))
+		}
+		return w.typeStr(sh.ty) + "{" + strings.Join(es, ", ") + "}"
+	case "struct":
+		var es []string
+		for i, f := range sh.fields {
+			var e *cval
+			if cv != nil && i < len(cv.F) {
+				e = cv.F[i]
+			}
+			if e == nil {
+				continue
+			}
+			es = append(es, f.name+": "+w.lit(f.sh, e))
+		}
+		return w.typeStr(sh.ty) + "{" + strings.Join(es, ", ") + "}"
+	case "ptr":
+		if cv == nil || !cv.Set || cv.Nil {
+			return "(" + w.typeStr(sh.ty) + ")(nil)"
+		}
+		return "&" + w.lit(sh.elem, cv)
+	}
+	return "nil"
+}
+
+func (w *goWriter) observe(sh *rshape, expr, path string, sb *strings.Builder) {
+	switch sh.kind {
+	case "int":
+		fmt.Fprintf(sb, "\tfmt.Printf(\"GOVC-REPLAY %s=%%d\\n\", %s)\n", path, expr)
+	case "bool":
+		fmt.Fprintf(sb, "\tfmt.Printf(\"GOVC-REPLAY %s=%%t\\n\", %s)\n", path, expr)
+	case "string":
+		fmt.Fprintf(sb, "\tfmt.Printf(\"GOVC-REPLAY %s=%%x.\\n\", []byte(%s))\n", path, expr)
+	case "bytes":
+		fmt.Fprintf(sb, "\tfmt.Printf(\"GOVC-REPLAY %s=%%x.\\n\", []byte(%s))\n", path, expr)
+		fmt.Fprintf(sb, "\tfmt.Printf(\"GOVC-REPLAY %s.nil=%%t\\n\", %s == nil)\n", path, expr)
+	case "error":
+		fmt.Fprintf(sb, "\tfmt.Printf(\"GOVC-REPLAY %s.nil=%%t\\n\", %s == nil)\n", path, expr)
+	case "ptr":
+		fmt.Fprintf(sb, "\tfmt.Printf(\"GOVC-REPLAY %s.nil=%%t\\n\", %s == nil)\n", path, expr)
+	case "array":
+		for i := 0; i < sh.n; i++ {
+			w.observe(sh.elem, fmt.Sprintf("%s[%d]", expr, i), fmt.Sprintf("%s[%d]", path, i), sb)
+		}
+	case "struct":
+		for _, f := range sh.fields {
+			w.observe(f.sh, expr+"."+f.name, path+"."+f.name, sb)
+		}
+	}
+}
+
+func readObserved(sh *rshape, path string, m map[string]string) *cval {
+	cv := &cval{}
+	switch sh.kind {
+	case "int":
+		if v, ok := m[path]; ok {
+			cv.N, cv.Set = v, true
+		}
+	case "bool":
+		if v, ok := m[path]; ok {
+			cv.B, cv.Set = v == "true", true
+		}
+	case "string", "bytes":
+		if v, ok := m[path]; ok {
+			v = strings.TrimSuffix(v, ".")
+			for i := 0; i+1 < len(v); i += 2 {
+				b, _ := strconv.ParseUint(v[i:i+2], 16, 8)
+				cv.S = append(cv.S, int(b))
+			}
+			cv.Len, cv.Set = len(cv.S), true
+			if cv.Len > 4*maxReplayLen {
+				cv.Set = false
+			}
+			cv.Nil = m[path+".nil"] == "true"
+		}
+	case "error":
+		if v, ok := m[path+".nil"]; ok {
+			cv.Nil, cv.Set = v == "true", true
+		}
+	case "ptr":
+		if v, ok := m[path+".nil"]; ok && v == "true" {
+			cv.Nil, cv.Set = true, true
+		}
+		// a non-nil pointer result is left unobserved (its target is not read back)
+	case "array":
+		cv.Set = true
+		for i := 0; i < sh.n; i++ {
+			cv.F = append(cv.F, readObserved(sh.elem, fmt.Sprintf("%s[%d]", path, i), m))
+		}
+	case "struct":
+		cv.Set = true
+		for _, f := range sh.fields {
+			cv.F = append(cv.F, readObserved(f.sh, path+"."+f.name, m))
+		}
+	}
+	return cv
+}
+
+// testSource renders the in-package test that calls the real function on the inputs.
+func (p *replayPlan) testSource(in []*cval) string {
+	w := &goWriter{pkg: p.pkg, imports: map[string]string{}}
+	var body strings.Builder
+	var args []string
+	for i, sh := range p.params {
+		fmt.Fprintf(&body, "\ta%d := %s\n", i, w.lit(sh, in[i]))
+		args = append(args, fmt.Sprintf("a%d", i))
+	}
+	for i, sh := range p.params {
+		if sh.kind == "bytes" || sh.kind == "ptr" {
+			fmt.Fprintf(&body, "\tc%d := %s\n", i, w.lit(sh, in[i]))
+		}
+	}
+	call := ""
+	if p.fn.Signature.Recv() != nil {
+		call = "a0." + p.fn.Name() + "(" + strings.Join(args[1:], ", ") + ")"
+	} else {
+		call = p.fn.Name() + "(" + strings.Join(args, ", ") + ")"
+	}
+	var rs []string
+	for i := range p.results {
+		rs = append(rs, fmt.Sprintf("r%d", i))
+	}
+	if len(rs) > 0 {
+		fmt.Fprintf(&body, "\t%s := %s\n", strings.Join(rs, ", "), call)
+	} else {
+		fmt.Fprintf(&body, "\t%s\n", call)
+	}
+	for i, sh := range p.results {
+		if sh == nil {
+			fmt.Fprintf(&body, "\t_ = r%d\n", i)
+			continue
+		}
+		w.observe(sh, fmt.Sprintf("r%d", i), fmt.Sprintf("r%d", i), &body)
+	}
+	if !p.pure {
+		for i, sh := range p.params {
+			switch sh.kind {
+			case "bytes":
+				w.observe(sh, fmt.Sprintf("a%d", i), fmt.Sprintf("in%d", i), &body)
+			case "ptr":
+				if in[i] != nil && in[i].Set && !in[i].Nil {
+					w.observe(sh.elem, fmt.Sprintf("(*a%d)", i), fmt.Sprintf("in%d", i), &body)
+				}
+			}
+		}
+	}
+	for i, sh := range p.params {
+		if sh.kind == "bytes" || sh.kind == "ptr" {
+			w.imports["reflect"] = "reflect"
+			fmt.Fprintf(&body, "\tfmt.Printf(\"GOVC-REPLAY in%d.unchanged=%%t\\n\", reflect.DeepEqual(a%d, c%d))\n", i, i, i)
+		}
+	}
+	body.WriteString("\tfmt.Println(\"GOVC-REPLAY done=true\")\n")
+	var imps []string
+	for path, name := range w.imports {
+		if path == "fmt" || path == "testing" {
+			continue
+		}
+		imps = append(imps, fmt.Sprintf("\t%s %q\n", name, path))
+	}
+	sort.Strings(imps)
+	return "package " + p.pkg.Name() + "\n\n// Generated by govc: replays a verifier counterexample on the real " + shortName(p.fn.String()) + ".\n\nimport (\n\t\"fmt\"\n\t\"testing\"\n" + strings.Join(imps, "") + ")\n\n" +
+		"func TestGovcReplay(t *testing.T) {\n\tdefer func() {\n\t\tif r := recover(); r != nil {\n\t\t\tfmt.Printf(\"GOVC-REPLAY panic=%q\\n\", fmt.Sprint(r))\n\t\t}\n\t}()\n" + body.String() + "}\n"
+}
+
+// runReal executes the test against the tree the program was loaded from (working tree plus the mutation overlay).
+func (p *replayPlan) runReal(src, work string) (map[string]string, string) {
+	os.MkdirAll(work, 0o755)
+	testFile := filepath.Join(work, "zz_govc_replay_test.go")
+	os.WriteFile(testFile, []byte(src), 0o644)
+	repl := map[string]string{filepath.Join(p.dir, "zz_govc_replay_test.go"): testFile}
+	n := 0
+	for f, b := range p.g.overlay {
+		n++
+		tmp := filepath.Join(work, fmt.Sprintf("ov%d_%s", n, filepath.Base(f)))
+		os.WriteFile(tmp, b, 0o644)
+		repl[f] = tmp
+	}
+	ovb, _ := json.Marshal(map[string]any{"Replace": repl})
+	ovFile := filepath.Join(work, "overlay.json")
+	os.WriteFile(ovFile, ovb, 0o644)
+	rel, err := filepath.Rel(p.g.repo, p.dir)
+	if err != nil {
+		return nil, err.Error()
+	}
+	cmd := exec.Command("go", "test", "-overlay", ovFile, "-vet=off", "-count=1", "-timeout", "60s", "-v", "-run", "^TestGovcReplay$", "./"+rel+"/")
+	cmd.Dir = p.g.repo
+	cmd.Env = append(os.Environ(), "PATH=/opt/veriftools/go1.26.8/bin:"+os.Getenv("PATH"), "GOFLAGS=-mod=mod", "GOPROXY=off", "GOSUMDB=off", "GOTOOLCHAIN=local")
+	done := make(chan struct{})
+	var out []byte
+	go func() { out, _ = cmd.CombinedOutput(); close(done) }()
+	select {
+	case <-done:
+	case <-time.After(180 * time.Second):
+		if cmd.Process != nil {
+			cmd.Process.Kill()
+		}
+		<-done
+		return nil, "go test timed out"
+	}
+	m := map[string]string{}
+	for _, ln := range strings.Split(string(out), "\n") {
+		ln = strings.TrimSpace(ln)
+		if !strings.HasPrefix(ln, "GOVC-REPLAY ") {
+			continue
+		}
+		kv := strings.SplitN(strings.TrimPrefix(ln, "GOVC-REPLAY "), "=", 2)
+		if len(kv) == 2 {
+			m[kv[0]] = kv[1]
+		}
+	}
+	if len(m) == 0 {
+		s := string(out)
+		if len(s) > 1500 {
+			s = s[len(s)-1500:]
+		}
+		return nil, "no output from the replay test: " + s
+	}
+	return m, ""
+}
+
+// ---------------------------------------------------------------- concrete evaluation of the contract
+
+type evalVerdict struct {
+	PreHolds   bool     `json:"precondition_proved_for_input"`
+	Falsified  []string `json:"postconditions_proved_false_on_this_run,omitempty"`
+	Panic      string   `json:"panic,omitempty"`
+	Reproduced bool     `json:"reproduced"`
+	Note       string   `json:"note,omitempty"`
+}
+
+func solveStatus(script, file string, timeoutS int) string {
+	os.WriteFile(file, []byte(script+"(check-sat)\n"), 0o644)
+	defer os.Remove(file)
+	for _, s := range []solverSpec{solvers[0], solvers[1]} {
+		r := runSolver(s, file, timeoutS)
+		if r.status == "unsat" || r.status == "sat" {
+			return r.status
+		}
+	}
+	return "unknown"
+}
+
+func (p *replayPlan) evaluate(in []*cval, obs map[string]string, work string) (v evalVerdict) {
+	defer func() {
+		if r := recover(); r != nil {
+			if u, ok := r.(unsupported); ok {
+				v.Note = "contract could not be evaluated concretely: " + u.msg
+				return
+			}
+			panic(r)
+		}
+	}()
+	c, vals := p.entryCtx()
+	for _, u := range p.fc.Uses {
+		c.useLemma(u)
+	}
+	var inFacts []string
+	for i, sh := range p.params {
+		inFacts = append(inFacts, c.facts(sh, vals[i].T, in[i])...)
+	}
+	env := c.preEnv()
+	var pres []string
+	for _, cl := range p.fc.Requires {
+		pres = append(pres, c.trClause(env, cl))
+	}
+	// results
+	sig := p.fn.Signature
+	var outFacts []string
+	entryHeap := c.heap.clone()
+	postHeap := c.heap
+	twoState := false
+	if !p.pure && !p.fc.ModNone {
+		// the call may write what its parameters reach: a second heap, known only where it was observed after the call
+		twoState = true
+		c.sortOf(types.Typ[types.Uint8])
+		c.elemsHeap(types.Typ[types.Uint8])
+		// every field of a pointed-to parameter struct gets a post-state array, observed or not: an unobserved
+		// field is then unconstrained after the call instead of silently "unchanged"
+		for _, sh := range p.params {
+			if sh.kind == "ptr" {
+				if st, ok := sh.elem.ty.Underlying().(*types.Struct); ok {
+					for fi := 0; fi < st.NumFields(); fi++ {
+						c.fieldHeap(sh.elem.ty, fi)
+					}
+				}
+			}
+		}
+		entryHeap = c.heap.clone()
+		postHeap = Heap{}
+		names := make([]string, 0, len(c.heap))
+		for name := range c.heap {
+			names = append(names, name)
+		}
+		sort.Strings(names)
+		for _, name := range names {
+			pn := sym(strings.Trim(name, "|") + " post")
+			for _, d := range c.decls {
+				if strings.HasPrefix(d, "(declare-const "+name+" ") {
+					c.decl("(declare-const " + pn + " " + strings.TrimSuffix(strings.TrimPrefix(d, "(declare-const "+name+" "), ")") + ")")
+				}
+			}
+			postHeap[name] = pn
+		}
+		for i, sh := range p.params {
+			switch sh.kind {
+			case "bytes":
+				after := readObserved(sh, fmt.Sprintf("in%d", i), obs)
+				if after.Set && in[i].Set && after.Len == in[i].Len {
+					after.Nil = in[i].Nil
+					fs := c.factsH(sh, vals[i].T, after, postHeap)
+					outFacts = append(outFacts, fs...)
+				}
+			case "ptr":
+				if in[i].Set && !in[i].Nil {
+					after := readObserved(sh.elem, fmt.Sprintf("in%d", i), obs)
+					pv := &cval{Set: true, F: after.F}
+					outFacts = append(outFacts, c.factsH(sh, vals[i].T, pv, postHeap)...)
+				}
+			}
+		}
+	}
+	penv := &Env{c: c, names: map[string]Val{}, heap: postHeap, old: entryHeap, pkg: c.pkg, what: "ensures of " + p.fn.Name()}
+	for _, prm := range p.fn.Params {
+		penv.names[prm.Name()] = c.vals[prm]
+	}
+	for i := 0; i < sig.Results().Len(); i++ {
+		rt := sig.Results().At(i).Type()
+		n := sym(fmt.Sprintf("rr!%d", i))
+		c.decl("(declare-const " + n + " " + c.sortOf(rt) + ")")
+		c.define(c.typeFact(n, rt))
+		rv := Val{T: n, Ty: rt}
+		if sig.Results().Len() == 1 {
+			penv.names["result"] = rv
+		}
+		penv.names[fmt.Sprintf("result%d", i)] = rv
+		if nm := sig.Results().At(i).Name(); nm != "" && nm != "_" {
+			if _, clash := penv.names[nm]; !clash {
+				penv.names[nm] = rv
+			}
+		}
+		if p.results[i] != nil {
+			outFacts = append(outFacts, c.factsH(p.results[i], n, readObserved(p.results[i], fmt.Sprintf("r%d", i), obs), postHeap)...)
+		}
+	}
+	var posts []string
+	for _, cl := range p.fc.Ensures {
+		posts = append(posts, c.trClause(penv, cl))
+	}
+	assemble := func(extra ...string) string {
+		var sb strings.Builder
+		sb.WriteString(prelude(c.mode))
+		for _, d := range c.decls {
+			if def := bitUFDefinition(d); def != "" {
+				d = def // exact machine meaning instead of the uninterpreted symbol used in proofs
+			}
+			sb.WriteString(d + "\n")
+		}
+		for _, it := range c.items {
+			if it.kind == "assert" {
+				sb.WriteString("(assert " + it.text + ")\n")
+			}
+		}
+		for _, f := range inFacts {
+			sb.WriteString("(assert " + f + ")\n")
+		}
+		for _, e := range extra {
+			sb.WriteString("(assert " + e + ")\n")
+		}
+		return sb.String()
+	}
+	file := filepath.Join(work, "eval.smt2")
+	// (0) the input facts themselves must be consistent
+	if solveStatus(assemble(), file, 10) == "unsat" {
+		v.Note = "input facts inconsistent (engine limitation)"
+		return v
+	}
+	// (1) the precondition holds for this input: facts /\ not(pre) is unsatisfiable
+	v.PreHolds = true
+	if len(pres) > 0 {
+		if solveStatus(assemble("(not "+and(pres...)+")"), file, 10) != "unsat" {
+			v.PreHolds = false
+			v.Note = "the precondition could not be proved for this input"
+			return v
+		}
+	}
+	if pn, ok := obs["panic"]; ok {
+		v.Panic = pn
+		if !p.pure {
+			v.Note = "the real code panicked on a receiver built from the model; only side-effect-free functions are replayed for panics (the model does not build maps, locks or pools)"
+		} else if !p.fc.NoSafety["all"] {
+			v.Reproduced = true
+		} else {
+			v.Note = "the real code panicked, but this contract does not claim panic freedom"
+		}
+		return v
+	}
+	if obs["done"] != "true" {
+		v.Note = "the replay test did not finish"
+		return v
+	}
+	// the evaluation below reads the inputs' entry values for both states: exact only if the call left them alone
+	for i := range p.params {
+		if !twoState && obs[fmt.Sprintf("in%d.unchanged", i)] == "false" {
+			if p.fc.ModNone {
+				v.Falsified = append(v.Falsified, fmt.Sprintf("modifies nothing: the call changed what parameter %s refers to", p.fn.Params[i].Name()))
+				v.Reproduced = true
+			} else {
+				v.Note = "the call changed its inputs; postconditions are not evaluated"
+			}
+			return v
+		}
+	}
+	// (2) each postcondition: facts /\ pre /\ outputs /\ post unsatisfiable => definitely violated on this run
+	all := append(append([]string{}, pres...), outFacts...)
+	if solveStatus(assemble(all...), file, 10) == "unsat" {
+		v.Note = "observed outputs inconsistent with the encoding (engine limitation)"
+		return v
+	}
+	for k, t := range posts {
+		if solveStatus(assemble(append(append([]string{}, all...), t)...), file, 10) == "unsat" {
+			v.Falsified = append(v.Falsified, fmt.Sprintf("ensures #%d: %s", k+1, p.fc.Ensures[k].Text))
+		}
+	}
+	v.Reproduced = len(v.Falsified) > 0
+	if !v.Reproduced {
+		v.Note = "no postcondition could be proved false on this run"
+	}
+	return v
+}
+
+// ---------------------------------------------------------------- driver
+
+type replayRecord struct {
+	Function string         `json:"function"`
+	Inputs   []*cval        `json:"inputs"`
+	GoArgs   []string       `json:"go_arguments"`
+	Observed map[string]string `json:"observed"`
+	Verdict  evalVerdict    `json:"verdict"`
+	TestFile string         `json:"test_file"`
+	Command  string         `json:"rerun"`
+	Source   string         `json:"candidate_from"`
+}
 
 // replayObligation writes the replay file of a failed obligation and tries to reproduce
 // the failure on the real code. It returns the replay path and whether the real code reproduced it.
 func replayObligation(g *Gen, repo, verif, prop string, ob *Obligation, work string) (string, bool) {
 	extra := map[string]any{}
-	if ob.Result == "sat" && g != nil {
-		if m := modelFor(g, ob, work); m != "" {
-			extra["model"] = m
+	var rec *replayRecord
+	if g != nil && ob.Script != "" && os.Getenv("GOVC_NOREPLAY") == "" {
+		plan, why := g.planReplay(ob.Fn)
+		if plan == nil {
+			extra["replay_not_attempted"] = why
+		} else {
+			rec = plan.search(ob, filepath.Join(work, "replay-"+sanitize(ob.Name)))
+			replayMu.Lock()
+			replayStats.Attempted++
+			if rec != nil {
+				replayStats.Reproduced = append(replayStats.Reproduced, ob.Name)
+			}
+			replayMu.Unlock()
+			if rec == nil {
+				extra["replay_not_reproduced"] = "no candidate input from the solver reproduced the failure on the real code"
+			}
 		}
 	}
+	if rec != nil {
+		dir := filepath.Join(verif, "replays", prop)
+		os.MkdirAll(dir, 0o755)
+		tf := filepath.Join(dir, sanitize(ob.Name)+"_replay_test.go.txt")
+		os.WriteFile(tf, []byte(rec.TestFile), 0o644)
+		rec.TestFile = tf
+		rec.Command = fmt.Sprintf("%s/engine/govc replay -file %s", verif, filepath.Join(dir, sanitize(ob.Name)+".json"))
+		extra["replay"] = rec
+		extra["reproduced_on_real_code"] = true
+	}
 	rp := writeReplay(verif, prop, ob, extra)
-	return rp, false
+	return rp, rec != nil
 }
 
-func modelFor(g *Gen, ob *Obligation, work string) string {
-	fn := g.funcs[ob.Fn]
-	if fn == nil {
+// search tries a few candidate inputs.
+func (p *replayPlan) search(ob *Obligation, work string) *replayRecord {
+	os.MkdirAll(work, 0o755)
+	defer os.RemoveAll(work)
+	full := stripCheck(ob.Script)
+	relaxed := relax(ob.Script)
+	tried := map[string]bool{}
+	for _, src := range []struct{ name, base string }{{"failing query, quantifiers instantiated over small indices", concretiseMark + full}, {"failing query with quantified assertions dropped", relaxed}, {"failing query", full}} {
+		var block []string
+		for k := 0; k < 3; k++ {
+			in, blk := p.candidate(src.base, block, work, fmt.Sprintf("%d", k))
+			if in == nil {
+				break
+			}
+			if blk != "" {
+				block = append(block, blk)
+			}
+			key, _ := json.Marshal(in)
+			if tried[string(key)] {
+				if blk == "" {
+					break
+				}
+				continue
+			}
+			tried[string(key)] = true
+			srcText := p.testSource(in)
+			obs, errs := p.runReal(srcText, work)
+			if obs == nil {
+				if os.Getenv("GOVC_REPLAY_DEBUG") != "" {
+					fmt.Fprintf(os.Stderr, "replay-debug %s: run failed: %s\n", ob.Name, errs)
+				}
+				continue
+			}
+			v := p.evaluate(in, obs, work)
+			if os.Getenv("GOVC_REPLAY_DEBUG") != "" {
+				ib, _ := json.Marshal(in)
+				fmt.Fprintf(os.Stderr, "replay-debug %s candidate(%s) %s -> %v verdict %+v\n", ob.Name, src.name, ib, obs, v)
+			}
+			if v.Reproduced {
+				w := &goWriter{pkg: p.pkg, imports: map[string]string{}}
+				var args []string
+				for i, sh := range p.params {
+					args = append(args, p.fn.Params[i].Name()+" = "+w.lit(sh, in[i]))
+				}
+				return &replayRecord{Function: shortName(p.fn.String()), Inputs: in, GoArgs: args, Observed: obs, Verdict: v, TestFile: srcText, Source: src.name}
+			}
+			if blk == "" {
+				break
+			}
+		}
+	}
+	return nil
+}
+
+// cmdReplay re-runs a recorded counterexample against the current tree: exit 1 if it still reproduces.
+func cmdReplay(args []string) int {
+	file := ""
+	repo := "/repo"
+	for i := 0; i < len(args); i++ {
+		switch args[i] {
+		case "-file":
+			i++
+			if i < len(args) {
+				file = args[i]
+			}
+		case "-repo":
+			i++
+			if i < len(args) {
+				repo = args[i]
+			}
+		}
+	}
+	if file == "" {
+		fmt.Println("usage: govc replay -file <replay.json> [-repo /repo]")
+		return 2
+	}
+	b, err := os.ReadFile(file)
+	if err != nil {
+		fmt.Println(err)
+		return 2
+	}
+	var m struct {
+		Obligation string        `json:"obligation"`
+		Replay     *replayRecord `json:"replay"`
+	}
+	if err := json.Unmarshal(b, &m); err != nil || m.Replay == nil {
+		fmt.Println("replay: this file records a failed obligation without a concrete input (no-failing-input-found); re-run the property check to re-evaluate the obligation")
+		return 0
+	}
+	fnName := m.Replay.Function
+	pkgPath := fnName
+	// package pattern from the function name: "(*a/b.T).m" or "a/b.f"
+	pkgPath = strings.TrimLeft(pkgPath, "(*")
+	if i := strings.LastIndex(pkgPath, "/"); i >= 0 {
+		rest := pkgPath[i+1:]
+		pkgPath = pkgPath[:i+1] + rest[:strings.Index(rest, ".")]
+	} else {
+		pkgPath = pkgPath[:strings.Index(pkgPath, ".")]
+	}
+	g, err := loadProgram(repo, []string{"./" + pkgPath}, nil)
+	if err != nil {
+		fmt.Println("load:", err)
+		return 2
+	}
+	g.repo = repo
+	if err := g.loadAssumed(filepath.Join(filepath.Dir(filepath.Dir(filepath.Dir(file))), "contracts", "assumed")); err != nil {
+		fmt.Println("assumed contracts:", err)
+	}
+	full := ""
+	for n := range g.funcs {
+		if shortName(n) == fnName {
+			full = n
+		}
+	}
+	plan, why := g.planReplay(full)
+	if plan == nil {
+		fmt.Println("replay: not replayable now:", why)
+		return 2
+	}
+	work, _ := os.MkdirTemp("", "govc-replay")
+	defer os.RemoveAll(work)
+	obs, errs := plan.runReal(plan.testSource(m.Replay.Inputs), work)
+	if obs == nil {
+		fmt.Println("replay: could not run:", errs)
+		return 2
+	}
+	v := plan.evaluate(m.Replay.Inputs, obs, work)
+	keys := make([]string, 0, len(obs))
+	for k := range obs {
+		keys = append(keys, k)
+	}
+	sort.Strings(keys)
+	fmt.Printf("function  %s\ninputs    %s\n", fnName, strings.Join(m.Replay.GoArgs, "; "))
+	for _, k := range keys {
+		fmt.Printf("observed  %s=%s\n", k, obs[k])
+	}
+	if v.Reproduced {
+		if v.Panic != "" {
+			fmt.Printf("REPRODUCED: the real code panics on an input satisfying the precondition: %s\n", v.Panic)
+		}
+		for _, f := range v.Falsified {
+			fmt.Printf("REPRODUCED: %s is false on this run\n", f)
+		}
+		return 1
+	}
+	fmt.Printf("NOT REPRODUCED on the current tree (%s)\n", v.Note)
+	return 0
+}
+
+// cmdReplayable lists, for the packages given, which functions under contract are in the replayable class.
+func cmdReplayable(args []string) int {
+	repo, verif, pkg := "/repo", "/verif", ""
+	for i := 0; i+1 < len(args); i += 2 {
+		switch args[i] {
+		case "-repo":
+			repo = args[i+1]
+		case "-verif":
+			verif = args[i+1]
+		case "-pkg":
+			pkg = args[i+1]
+		}
+	}
+	g, err := loadProgram(repo, strings.Split(pkg, ","), nil)
+	if err != nil {
+		fmt.Println(err)
+		return 2
+	}
+	g.loadAssumed(filepath.Join(verif, "contracts", "assumed"))
+	var names []string
+	for n, fc := range g.cs.Funcs {
+		if !fc.Trusted && g.funcs[n] != nil {
+			names = append(names, n)
+		}
+	}
+	sort.Strings(names)
+	yes := 0
+	for _, n := range names {
+		p, why := g.planReplay(n)
+		if p != nil {
+			yes++
+			fmt.Printf("replayable  %s\n", shortName(n))
+		} else {
+			fmt.Printf("no          %s: %s\n", shortName(n), why)
+		}
+	}
+	fmt.Printf("%d of %d functions under contract are replayable\n", yes, len(names))
+	return 0
+}
+
+// ---------------------------------------------------------------- bounded concretisation of a failing query
+//
+// Candidate inputs only (every candidate is validated on the real code afterwards, so any heuristic is admissible):
+// quantifiers over index variables are instantiated with 0..k, the definitional axioms of spos / sbyte / streq are
+// replaced by definitions exact for lengths <= k, and what still carries a quantifier is dropped.
+
+type sx struct {
+	atom string
+	kids []*sx
+}
+
+func parseSx(s string) *sx {
+	i := 0
+	var rec func() *sx
+	skip := func() {
+		for i < len(s) && (s[i] == ' ' || s[i] == '\n' || s[i] == '\t' || s[i] == '\r') {
+			i++
+		}
+	}
+	rec = func() *sx {
+		skip()
+		if i >= len(s) {
+			return nil
+		}
+		if s[i] == '(' {
+			i++
+			n := &sx{}
+			for {
+				skip()
+				if i >= len(s) {
+					return n
+				}
+				if s[i] == ')' {
+					i++
+					return n
+				}
+				k := rec()
+				if k == nil {
+					return n
+				}
+				n.kids = append(n.kids, k)
+			}
+		}
+		st := i
+		if s[i] == '|' {
+			i++
+			for i < len(s) && s[i] != '|' {
+				i++
+			}
+			i++
+		} else if s[i] == '"' {
+			i++
+			for i < len(s) && s[i] != '"' {
+				i++
+			}
+			i++
+		} else {
+			for i < len(s) && s[i] != ' ' && s[i] != '\n' && s[i] != '\t' && s[i] != '(' && s[i] != ')' {
+				i++
+			}
+		}
+		return &sx{atom: s[st:i]}
+	}
+	return rec()
+}
+
+func (n *sx) String() string {
+	if n.kids == nil && n.atom != "" {
+		return n.atom
+	}
+	var sb strings.Builder
+	n.write(&sb)
+	return sb.String()
+}
+
+func (n *sx) write(sb *strings.Builder) {
+	if n.kids == nil && n.atom != "" {
+		sb.WriteString(n.atom)
+		return
+	}
+	sb.WriteByte('(')
+	for i, k := range n.kids {
+		if i > 0 {
+			sb.WriteByte(' ')
+		}
+		k.write(sb)
+	}
+	sb.WriteByte(')')
+}
+
+func (n *sx) head() string {
+	if len(n.kids) > 0 && n.kids[0].kids == nil {
+		return n.kids[0].atom
+	}
+	return ""
+}
+
+func (n *sx) subst(m map[string]*sx) *sx {
+	if n.kids == nil {
+		if r, ok := m[n.atom]; ok && n.atom != "" {
+			return r
+		}
+		return n
+	}
+	h := n.head()
+	if (h == "forall" || h == "exists" || h == "let") && len(n.kids) >= 3 {
+		// respect shadowing
+		inner := m
+		for _, b := range n.kids[1].kids {
+			if len(b.kids) > 0 && b.kids[0].kids == nil {
+				if _, ok := m[b.kids[0].atom]; ok {
+					if &inner == &m || true {
+						cp := map[string]*sx{}
+						for k, v := range inner {
+							cp[k] = v
+						}
+						delete(cp, b.kids[0].atom)
+						inner = cp
+					}
+				}
+			}
+		}
+		out := &sx{kids: []*sx{n.kids[0]}}
+		if h == "let" {
+			bs := &sx{}
+			for _, b := range n.kids[1].kids {
+				if len(b.kids) == 2 {
+					bs.kids = append(bs.kids, &sx{kids: []*sx{b.kids[0], b.kids[1].subst(m)}})
+				} else {
+					bs.kids = append(bs.kids, b)
+				}
+			}
+			if bs.kids == nil {
+				bs.kids = []*sx{}
+			}
+			out.kids = append(out.kids, bs)
+		} else {
+			out.kids = append(out.kids, n.kids[1])
+		}
+		for _, k := range n.kids[2:] {
+			out.kids = append(out.kids, k.subst(inner))
+		}
+		return out
+	}
+	out := &sx{kids: make([]*sx, len(n.kids))}
+	for i, k := range n.kids {
+		out.kids[i] = k.subst(m)
+	}
+	return out
+}
+
+// instantiate replaces quantifiers over index-sorted variables by finite conjunctions/disjunctions over 0..k.
+// ok=false: a quantifier remains.
+func instantiate(n *sx, k int, bv bool) (*sx, bool) {
+	if n.kids == nil {
+		return n, true
+	}
+	h := n.head()
+	if h == "!" && len(n.kids) >= 2 {
+		return instantiate(n.kids[1], k, bv)
+	}
+	if (h == "forall" || h == "exists") && len(n.kids) == 3 {
+		var vars []string
+		for _, b := range n.kids[1].kids {
+			if len(b.kids) != 2 {
+				return n, false
+			}
+			srt := b.kids[1].String()
+			if !(srt == "(_ BitVec 64)" || (!bv && srt == "Int")) {
+				return n, false
+			}
+			vars = append(vars, b.kids[0].atom)
+		}
+		total := 1
+		for range vars {
+			total *= k + 1
+			if total > 128 {
+				return n, false
+			}
+		}
+		body, ok := instantiate(n.kids[2], k, bv)
+		if !ok {
+			return n, false
+		}
+		op := "and"
+		if h == "exists" {
+			op = "or"
+		}
+		out := &sx{kids: []*sx{{atom: op}}}
+		idx := make([]int, len(vars))
+		for {
+			m := map[string]*sx{}
+			for i, v := range vars {
+				if bv {
+					m[v] = &sx{atom: fmt.Sprintf("(_ bv%d 64)", idx[i])}
+				} else {
+					m[v] = &sx{atom: strconv.Itoa(idx[i])}
+				}
+			}
+			out.kids = append(out.kids, body.subst(m))
+			j := 0
+			for j < len(idx) {
+				idx[j]++
+				if idx[j] <= k {
+					break
+				}
+				idx[j] = 0
+				j++
+			}
+			if j == len(idx) {
+				break
+			}
+		}
+		if len(out.kids) == 2 {
+			return out.kids[1], true
+		}
+		return out, true
+	}
+	out := &sx{kids: make([]*sx, len(n.kids))}
+	allOK := true
+	for i, c := range n.kids {
+		r, ok := instantiate(c, k, bv)
+		out.kids[i] = r
+		if !ok {
+			allOK = false
+		}
+	}
+	return out, allOK
+}
+
+func concretise(script string, k int) string {
+	bv := strings.Contains(script, "(declare-fun spos (Slice (_ BitVec 64))")
+	I := "Int"
+	lit := func(i int) string { return strconv.Itoa(i) }
+	plus, lt := "+", "<"
+	if bv {
+		I = "(_ BitVec 64)"
+		lit = func(i int) string { return fmt.Sprintf("(_ bv%d 64)", i) }
+		plus, lt = "bvadd", "bvslt"
+	}
+	var sb strings.Builder
+	for _, f := range topForms(script) {
+		switch {
+		case strings.HasPrefix(f, "(check-sat"), strings.HasPrefix(f, "(get-"):
+			continue
+		case strings.HasPrefix(f, "(declare-fun spos "):
+			sb.WriteString("(define-fun spos ((s Slice) (i " + I + ")) " + I + " (" + plus + " (s_off s) i))\n")
+			continue
+		case strings.HasPrefix(f, "(declare-fun sbyte "):
+			B := "Int"
+			if bv {
+				B = "(_ BitVec 8)"
+			}
+			body := "(select (select SB (s_reg s)) (" + plus + " (s_off s) i))"
+			if !bv {
+				body = "(mod " + body + " 256)" // the 0..255 range axiom is quantified over slices and therefore dropped
+			}
+			sb.WriteString("(define-fun sbyte ((s Slice) (i " + I + ")) " + B + " " + body + ")\n")
+			continue
+		case strings.HasPrefix(f, "(declare-fun bit_") || strings.HasPrefix(f, "(declare-fun |bit_"):
+			// int-mode bit operations are uninterpreted (range axioms only): give candidates the machine meaning
+			if d := bitUFDefinition(f); d != "" {
+				sb.WriteString(d + "\n")
+			} else {
+				sb.WriteString(f + "\n")
+			}
+			continue
+		case strings.HasPrefix(f, "(declare-fun streq "):
+			var cs []string
+			for i := 0; i <= k; i++ {
+				cs = append(cs, "(=> ("+lt+" "+lit(i)+" (s_len a)) (= (sbyte a "+lit(i)+") (sbyte b "+lit(i)+")))")
+			}
+			sb.WriteString("(define-fun streq ((a Slice) (b Slice)) Bool (and (= (s_len a) (s_len b)) " + strings.Join(cs, " ") + "))\n")
+			continue
+		}
+		if strings.HasPrefix(f, "(assert") && quantRe.MatchString(f) {
+			t := parseSx(f)
+			if t == nil || len(t.kids) != 2 {
+				continue
+			}
+			r, ok := instantiate(t.kids[1], k, bv)
+			if !ok {
+				continue
+			}
+			sb.WriteString("(assert " + r.String() + ")\n")
+			continue
+		}
+		sb.WriteString(f + "\n")
+	}
+	return sb.String()
+}
+
+// bitUFDefinition: the exact machine meaning of an int-mode bit operation symbol (declared uninterpreted in proofs).
+func bitUFDefinition(f string) string {
+	m := bitUFRe.FindStringSubmatch(f)
+	if m == nil {
 		return ""
 	}
-	var terms []string
-	for _, p := range fn.Params {
-		terms = append(terms, sym("p_"+p.Name()))
+	bits, _ := strconv.Atoi(m[3])
+	cv := func(v string) string { return fmt.Sprintf("((_ int2bv %d) %s)", bits, v) }
+	var body string
+	switch m[1] {
+	case "and":
+		body = "(bvand " + cv("x") + " " + cv("y") + ")"
+	case "or":
+		body = "(bvor " + cv("x") + " " + cv("y") + ")"
+	case "xor":
+		body = "(bvxor " + cv("x") + " " + cv("y") + ")"
+	case "andnot":
+		body = "(bvand " + cv("x") + " (bvnot " + cv("y") + "))"
+	case "<<":
+		body = fmt.Sprintf("(ite (>= y %d) (_ bv0 %d) (bvshl %s %s))", bits, bits, cv("x"), cv("y"))
+	case ">>":
+		if m[2] == "s" {
+			body = fmt.Sprintf("(ite (>= y %d) (bvashr %s (_ bv%d %d)) (bvashr %s %s))", bits, cv("x"), bits-1, bits, cv("x"), cv("y"))
+		} else {
+			body = fmt.Sprintf("(ite (>= y %d) (_ bv0 %d) (bvlshr %s %s))", bits, bits, cv("x"), cv("y"))
+		}
+	default:
+		return ""
 	}
-	return getModel(ob, work, terms)
-}
-
-func cmdReplay(args []string) int {
-	fmt.Println("replay: see the replay file; re-run the check to re-evaluate the obligation")
-	return 0
+	r := "(bv2nat " + body + ")"
+	if m[2] == "s" {
+		r = fmt.Sprintf("(ite (>= %s %s) (- %s %s) %s)", r, pow2(bits-1).String(), r, pow2(bits).String(), r)
+	}
+	return "(define-fun " + sym("bit_"+m[1]+"_"+m[2]+m[3]) + " ((x Int) (y Int)) Int " + r + ")"
 }
